@@ -50,7 +50,6 @@ def readHunk (b n : Nat) : Prog (Option (List IndexEntry)) := do
   | .val _ => .fail .json
   | _ => .fail (.transport .other)
 
-def apathLe (a b : Str) : Bool := apathCmp a b != .gt
 
 /-- The part of a hunk the iterator returns when resuming after `after`: the code does a
 binary search for the insertion point; on a sorted hunk that is the first entry above `after`. -/
